@@ -182,7 +182,10 @@ func streamSuite(r *Run, prop string) {
 						}
 					}
 				}
-				if len(finals) > 0 {
+				// (a single-response method on which the handler sent two messages ends with the library's own
+				// Internal error: the client stops reading there, so the handler's trailers are not part of that outcome)
+				protocolViolation := (kind == "cstream" || kind == "unarystream") && len(hAtt) >= 2
+				if len(finals) > 0 && !protocolViolation {
 					for _, o := range h.byActorOp("cr", "trailer") {
 						if o.step > finals[0].doneStep && finals[0].step > h.returnStep {
 							want := "md:-"
